@@ -73,6 +73,8 @@ Additionally for this round: AVOID the statements a reviewer would look at first
 
 OPT = """For this round produce THREE changes (`a`, `b`, `c`), and make each of them a well-meant PERFORMANCE OPTIMISATION or SIMPLIFICATION of the kind a maintainer profiling the library would commit -- one that happens to break the property. Ideas: compute something once at decoration / class-creation time instead of at every call (signature data, the lists of contracts, the selected invariants, a lookup table) although it can change later; cache a result on the function, the contract, the class or in a module-level dict keyed by something that is not unique enough (`id(...)` of a short-lived object, a name, a code object, a signature); add a fast path that skips work when it 'obviously' is not needed (no postconditions, no snapshots, empty kwargs, a single group, an already-seen object, the common sync case) but skips slightly too much; hoist a statement out of a loop or a `try`; replace a copy by a reference or a fresh container by a shared default; short-circuit a loop early; replace a general mechanism (ContextVar, MRO lookup, `inspect.signature`, `getattr_static`) by a cheaper approximation (a plain attribute, `__dict__`, `__code__.co_varnames`, a thread-local or module global); avoid a second pass by merging two loops; drop a 'redundant' check, re-validation, `sorted`, `list(...)` or `copy`; build a message or repr lazily or eagerly instead of the other way round. 5-40 changed lines each; each change should come with a short comment or docstring line that a real commit would carry (the motivation), and must not mention that it breaks anything. Spread the three over different functions and clauses of the property."""
 
+ROBUST = """For this round produce THREE changes (`a`, `b`, `c`), and make each of them a well-meant HARDENING / LENIENCY / CONVENIENCE change of the kind that arrives as 'make icontract more robust' or 'be friendlier to users' -- one that happens to break the property. Ideas: wrap something in `try/except` and fall back (to a default value, to skipping the step, to a simpler message, to `repr()`), so that an error that should surface is absorbed or replaced; accept more inputs than before (duck-typing instead of an exact test, `callable()` instead of `isfunction`, truthiness instead of `is None`, a missing argument filled with `None` instead of a TypeError, awaitables accepted where coroutines were required, subclasses / proxies / partials treated like the real thing); tolerate an inconsistent state instead of raising (`dict.get` with a default, `getattr(..., None)`, `setdefault`, ignoring a duplicate, de-duplicating, clamping an index); add a guard against a rare crash that also skips legitimate work (`if not x: return`, `hasattr` checks, early exit for empty input); reset or clean up state 'defensively' (clearing the in-progress marker, re-creating a list, copying 'to be safe' -- or not copying to 'keep identity'); make behaviour depend on an environment variable, `__debug__`, `sys.flags` or the interpreter version 'for compatibility'; log / warn instead of raise; retry once. 5-40 changed lines each; each change should come with the short comment or docstring line a real commit would carry (the motivation), and must not mention that it breaks anything. Spread the three over different functions and clauses of the property."""
+
 for line in open("/verif/properties.jsonl"):
     rec = json.loads(line)
     pid = rec["id"]
@@ -81,6 +83,8 @@ for line in open("/verif/properties.jsonl"):
         st = SMALL if style == "small" else SMALL2
     elif style == "opt":
         st = OPT
+    elif style == "robust":
+        st = ROBUST
     elif style == "regress":
         hashes = FIXES.get(pid, [])
         relevant = ("The ones most relevant to this property: %s. " % ", ".join(hashes)) if hashes else "Pick whichever of them touches this property's mechanism (if none does, both changes are free). "
@@ -90,7 +94,7 @@ for line in open("/verif/properties.jsonl"):
     text = TEMPLATE.format(wt=wt, out=out, pid=pid, record=json.dumps(rec, indent=1), style=st)
     if style in ("small", "small2"):
         text = text.replace("Produce TWO independent changes (call them `a`, `b`)", "Produce FOUR independent changes (call them `a`, `b`, `c`, `d`)").replace("`{out}/{pid}/a/`, `.../b/`:".format(out=out, pid=pid), "`{out}/{pid}/a/`, `.../b/`, `.../c/`, `.../d/`:".format(out=out, pid=pid)).replace("a brief description of the two changes", "a brief description of the four changes")
-    if style == "opt":
+    if style in ("opt", "robust"):
         text = text.replace("Produce TWO independent changes (call them `a`, `b`)", "Produce THREE independent changes (call them `a`, `b`, `c`)").replace("`{out}/{pid}/a/`, `.../b/`:".format(out=out, pid=pid), "`{out}/{pid}/a/`, `.../b/`, `.../c/`:".format(out=out, pid=pid)).replace("a brief description of the two changes", "a brief description of the three changes")
     open(os.path.join(out, "prompt_%s.txt" % pid), "w").write(text)
 print("wrote 20 prompts to", out)
